@@ -42,9 +42,10 @@ func ruleC11_6(c *Ctx) {
 		in := c.Interp()
 		in.Hooks = h
 		type st struct {
-			site ssa.Instruction
-			path string
-			val  *sym.Term
+			site  ssa.Instruction
+			path  string
+			val   *sym.Term
+			guard *sym.Term
 		}
 		var stores []st
 		in.OnStore = func(fr *sym.Frame, site ssa.Instruction, ptr, val *sym.Term) {
@@ -56,7 +57,7 @@ func ruleC11_6(c *Ctx) {
 					return
 				}
 			}
-			stores = append(stores, st{site, ptr.Path.String(), val})
+			stores = append(stores, st{site, ptr.Path.String(), val, fr.CurrentGuard()})
 		}
 		_, _, rootFr := in.Run(fn, nil, nil)
 		// the conditions under which the chunk is accepted
@@ -78,6 +79,7 @@ func ruleC11_6(c *Ctx) {
 			return simplifyUnder(t, accept)
 		}
 		printed := map[string]bool{}
+		printedUnder := map[string][]*sym.Term{} // value key -> guards of the lines that show it
 		nPrints := 0
 		for _, ev := range in.Events {
 			if ev.Kind != "print" {
@@ -91,7 +93,9 @@ func ruleC11_6(c *Ctx) {
 				if i < len(ev.VarArgs) {
 					for _, v := range ev.VarArgs[i] {
 						if v != nil {
-							printed[stripElem(underAccept(v)).Key()] = true
+							k := stripElem(underAccept(v)).Key()
+							printed[k] = true
+							printedUnder[k] = append(printedUnder[k], ev.Guard)
 						}
 					}
 				}
@@ -122,6 +126,28 @@ func ruleC11_6(c *Ctx) {
 				}
 			}
 			R.Check(ok, construct, c.Pos(s.site), "the stored value (or each of its components) is printed", detail+" value="+shortKey(v))
+			// listed => stored: whenever the line showing the value is printed, the value is stored - the store depends on
+			// nothing the line does not depend on (apart from the printer being there)
+			if ok && s.guard != nil {
+				var lines []*sym.Term
+				lines = append(lines, printedUnder[v.Key()]...)
+				if stt, isS := v.T.Underlying().(*types.Struct); v.T != nil && isS && len(lines) == 0 && stt.NumFields() > 0 {
+					lines = append(lines, printedUnder[stripElem(underAccept(sym.Field(v, 0, stt.Field(0).Type()))).Key()]...)
+				}
+				extra := ""
+				for _, lit := range guardLits(s.guard) {
+					implied := len(lines) > 0
+					for _, pg := range lines {
+						if !impliesLit([]*sym.Term{pg}, lit) {
+							implied = false
+						}
+					}
+					if !implied {
+						extra = shortKey(lit)
+					}
+				}
+				R.Check(extra == "", construct+":unconditional", c.Pos(s.site), "stored whenever it is listed", "the store additionally depends on "+extra)
+			}
 		}
 		if n == 0 || nPrints == 0 {
 			R.Unknown("decode.decodeMetadataChunk#"+cf.name+":stores", c.FPos(fn), fmt.Sprintf("%d stores into the metadata and %d listing lines seen", n, nPrints))
